@@ -952,3 +952,88 @@ def register(reg):      # noqa: F811
     reg.add(MappingDecode())
     reg.add_loop("serialization.py::MappingCodec.decode", 0,
                  LoopSpec(_map_dec_inv, modifies=("$stream.pos",), carried={"mapping": "dict:val"}))
+
+
+enc_zip = z3.Function("enc_fields", VSeq, VSeq, BSeq)      # concatenation of enc_tree(item i, type i), in order
+
+
+def enc_zip_axioms():
+    p, q = z3.Const("zp", VSeq), z3.Const("zq", VSeq)
+    x, t = z3.Const("zx", Val), z3.Const("zt", Val)
+    return [enc_zip(z3.Empty(VSeq), z3.Empty(VSeq)) == z3.Empty(BSeq),
+            z3.ForAll([p, q, x, t], enc_zip(z3.Concat(p, z3.Unit(x)), z3.Concat(q, z3.Unit(t))) ==
+                      z3.Concat(enc_zip(p, q), enc_tree(x, t)),
+                      patterns=[enc_zip(z3.Concat(p, z3.Unit(x)), z3.Concat(q, z3.Unit(t)))])]
+
+
+class TupleEncode(CodecBase):
+    """tuple<T1,...,Tn>: the fields in order, field i through the tree codec of Ti; nothing else (no count); a value
+    whose length differs from the number of subtypes is an EncodeError and nothing is written"""
+    target = "serialization.py::TupleCodec.encode"
+    params = {"out": "stream", "items": "seq", "serialization": "ref:Serialization", "subtypes": "seq"}
+    modifies = {"$stream.content": only("out"), "$stream.pos": only("out")}
+
+    def axioms(self, eng):
+        return super().axioms(eng) + enc_zip_axioms()
+
+    def pre(self, c, a):
+        return append_pre(c, a.out.t)
+
+    def raises(self, c0, a):
+        return {"EncodeError": z3.Length(a["items"].t) != z3.Length(a.subtypes.t)}
+
+    def on_raise(self, c0, c1, a, exc_name):
+        if exc_name == "EncodeError":
+            return {"nothing_written": content(c1, a.out.t) == content(c0, a.out.t)}
+        return {}
+
+    def may_raise(self, c0, a):
+        i = fresh("i", Int)
+        xs, ts = a["items"].t, a.subtypes.t
+        same = z3.Length(xs) == z3.Length(ts)
+        bad = lambda code: z3.And(same, z3.Exists([i], z3.And(0 <= i, i < z3.Length(xs), code(enc_exc(xs[i], ts[i])))))
+        return {"UnknownCodecError": bad(lambda e: e == 1), "Exception": bad(lambda e: z3.And(e != 0, e != 1))}
+
+    def post(self, c0, c1, a, res):
+        s = a.out.t
+        xs, ts = a["items"].t, a.subtypes.t
+        return {"prefix_kept": z3.SubSeq(content(c1, s), 0, z3.Length(content(c0, s))) == content(c0, s),
+                "the_fields_in_order": appended(c0, c1, s) == enc_zip(xs, ts),
+                "position_at_end": pos(c1, s) == z3.Length(content(c1, s))}
+
+
+def _tuple_enc_inv(L):
+    c0, a, cur = L.c0, L.a, L.c
+    s = a.out.t
+    xs, ts = a["items"].t, a.subtypes.t
+    old, new = content(c0, s), content(cur, s)
+    r_ = fresh("r", Int)
+    i = fresh("i", Int)
+    return {"prefix_kept": z3.SubSeq(new, 0, z3.Length(old)) == old,
+            "fields_so_far": z3.SubSeq(new, z3.Length(old), z3.Length(new) - z3.Length(old)) ==
+            enc_zip(z3.Extract(xs, 0, L.k), z3.Extract(ts, 0, L.k)),
+            "at_end": pos(cur, s) == z3.Length(new),
+            "other_streams_untouched": z3.ForAll([r_], z3.Implies(r_ != s, z3.And(content(cur, r_) == content(c0, r_),
+                                                                                  pos(cur, r_) == pos(c0, r_))))}
+
+
+def _tuple_enc_lemmas(L):
+    a = L.a
+    xs, ts = a["items"].t, a.subtypes.t
+    k = L.k
+    return [z3.Implies(z3.And(0 <= k, k < z3.Length(xs), k < z3.Length(ts)), z3.And(
+        z3.Extract(xs, 0, k + 1) == z3.Concat(z3.Extract(xs, 0, k), z3.Unit(xs[k])),
+        z3.Extract(ts, 0, k + 1) == z3.Concat(z3.Extract(ts, 0, k), z3.Unit(ts[k])))),
+            z3.Implies(z3.And(0 <= k, k < z3.Length(xs), k < z3.Length(ts)),
+                       enc_zip(z3.Extract(xs, 0, k + 1), z3.Extract(ts, 0, k + 1)) ==
+                       z3.Concat(enc_zip(z3.Extract(xs, 0, k), z3.Extract(ts, 0, k)), enc_tree(xs[k], ts[k])))]
+
+
+_reg7 = register
+
+
+def register(reg):      # noqa: F811
+    _reg7(reg)
+    reg.add(TupleEncode())
+    reg.add_loop("serialization.py::TupleCodec.encode", 0,
+                 LoopSpec(_tuple_enc_inv, modifies=("$stream.content", "$stream.pos"), lemmas=_tuple_enc_lemmas))
